@@ -163,12 +163,17 @@ impl<T, E> Write<Result<T, E>> {
 pub unsafe trait DerefWrite: Deref {}
 
 // SAFETY: All these types have pure & non-GC-traversing Deref impls
-unsafe impl<T: ?Sized> DerefWrite for &T {}
+//
+// References and reference-counted pointers do not own their target exclusively: the same target
+// may also be held by another GC'd object which has *not* had a write barrier applied to it. It
+// is only sound to propagate a write barrier through them if the target cannot hold `Gc` pointers
+// at all, so these impls require a `'static` target.
+unsafe impl<T: ?Sized + 'static> DerefWrite for &T {}
 unsafe impl<T: ?Sized> DerefWrite for alloc::boxed::Box<T> {}
 unsafe impl<T> DerefWrite for Vec<T> {}
-unsafe impl<T: ?Sized> DerefWrite for alloc::rc::Rc<T> {}
+unsafe impl<T: ?Sized + 'static> DerefWrite for alloc::rc::Rc<T> {}
 #[cfg(target_has_atomic = "ptr")]
-unsafe impl<T: ?Sized> DerefWrite for alloc::sync::Arc<T> {}
+unsafe impl<T: ?Sized + 'static> DerefWrite for alloc::sync::Arc<T> {}
 
 /// Types which preserve write barriers when indexed.
 ///
